@@ -205,6 +205,12 @@ def run(ctx):
         fails = judge_e2e(c, r)
         if fails:
             ctx.violation(fails[0], src=c['src'], multi=c['multi'], kind='e2e')
+    aa = [gen_accept_all(rng) for _ in range(ctx.scale(16, 300))]
+    for c, r in zip(aa, ctx.pmap(run_accept_all, aa)):
+        ctx.case(('accept-all', c['text'], c['multi'], c['accept'], c['hashseed']), nontrivial=True); ctx.count('accept_all_rc_%d' % r['rc'])
+        fails = judge_accept_all(c, r)
+        if fails:
+            ctx.violation(fails[0], kind='accept-all', case=c)
 
 # ---- end to end: the shell's own messages are reported at their place in the LaTeX file ----------
 
@@ -268,6 +274,58 @@ def judge_e2e(case, r):
                 % (' (--multi-language)' if case['multi'] else '', sorted(got), want)]
     return []
 
+def run_accept_all(case):
+    """trailing || in --single-letters accepts every equation placeholder and, with --multi-language, every language-change placeholder"""
+    import shellrun
+    args = ['--plain-input', '--language', case['lang'], '--single-letters', case['accept'], '--output', 'json']
+    if case['multi']:
+        args += ['--multi-language']
+    return shellrun.run_shell({'files': {'t.txt': case['text']}, 'main': ['t.txt'], 'args': args, 'spec': {}, 'hashseed': case['hashseed']})
+
+def judge_accept_all(case, r):
+    import json as _j
+    if r['rc'] != 0:
+        return ['shell failed with exit status %d: %s' % (r['rc'], r['stderr'][-200:])]
+    try:
+        ms = _j.loads(r['stdout'])['matches']
+    except Exception as e:
+        return ['json report unreadable: %s' % e]
+    text = case['text']
+    bad = []
+    for m in ms:
+        o = m.get('offset')
+        if m.get('length') == 1 and isinstance(o, int) and 0 <= o < len(text):
+            for ph in case['accepted']:
+                k = text.find(ph)
+                while k >= 0:
+                    if k <= o < k + len(ph):
+                        bad.append((ph, o))
+                    k = text.find(ph, k + 1)
+    if bad:
+        return ['--single-letters %r%s: a letter of the placeholder %r (offset %d) is reported although every placeholder is accepted'
+                % (case['accept'], ' --multi-language' if case['multi'] else '', bad[0][0], bad[0][1])]
+    want = sorted(m_.start() for m_ in re.finditer(r'(?<![A-Za-z-])[b-z](?![A-Za-z-])', text))
+    got = sorted(m['offset'] for m in ms if m.get('length') == 1)
+    if got != want:
+        return ['--single-letters %r: messages at %r, isolated letters outside placeholders stand at %r' % (case['accept'], got, want)]
+    return []
+
+def gen_accept_all(rng):
+    m = impl.load()
+    lang = rng.choice(['en-GB', 'de-DE', 'ru-RU'])
+    lc = m.parameters.Parameters(lang).lang_context
+    eq = list(dict.fromkeys(lc.math_repl_display + lc.math_repl_display_vowel + lc.math_repl_inline + lc.math_repl_inline_vowel))
+    lg = list(dict.fromkeys(lc.lang_change_repl + lc.lang_change_repl_vowel))
+    multi = rng.random() < 0.7
+    phs = eq + (lg if multi else [])      # without --multi-language the language-change placeholders are ordinary text
+    rng.shuffle(phs)
+    words = []
+    for ph in phs:
+        words.append(ph)
+        words.append(rng.choice(['word', 'x', 'Text,', 'q', 'and']))
+    return {'text': ' '.join(words) + '\n', 'lang': lang, 'multi': multi, 'accept': rng.choice(['||', 'i. e.||', 'a|I||']),
+            'accepted': eq + (lg if multi else []), 'hashseed': rng.randint(0, 50)}
+
 def model_corr(ctx, cases, res):
     """the single-letter scan of the Lean model (accept hits taken from the implementation's own accept scan)"""
     if not ctx.model_ok:
@@ -317,6 +375,11 @@ def judge_witness(w):
 
 def replay(data):
     v = data['violation']
+    if v.get('kind') == 'accept-all':
+        c = v['case']
+        f = judge_accept_all(c, run_accept_all(c))
+        print('\n'.join(f) if f else 'ok')
+        return not f
     if v.get('kind') == 'e2e':
         c = {'src': v['src'], 'multi': v['multi']}
         f = judge_e2e(c, run_e2e(c))
